@@ -1,6 +1,8 @@
 """C10 — MultivariateNormal is the distribution it claims to be.
 
-Tie: correspondence.  Every case runs the real `gpytorch.distributions.MultivariateNormal` (from $VERIF_REPO)
+Tie: translator G7 (harness/translate/g7_mvn.py regenerates lean/GPVerif/Gen/MVN.lean from the AST of
+multivariate_normal.py on every run; the `gen_*` theorems of Props/C10.lean state that the regenerated definitions equal
+the specifications; the driver evaluates the regenerated definitions) AND correspondence.  Every case runs the real `gpytorch.distributions.MultivariateNormal` (from $VERIF_REPO)
 and the Lean model (`drivers/C10.lean`, exact in Q) on the same inputs (all inputs are low-bit dyadic
 rationals, shipped exactly).  The specification the implementation is judged by is the exact value
 (`quad`, `det`, trace term, marginal sub-matrix, `mu + L e`, normalised index positions); `log` is applied
@@ -19,7 +21,7 @@ from lib import common as C
 
 ID = "C10"
 PROP_MODULES = ["GPVerif.Props.C10"]
-BUILD_TARGETS = ["GPVerif.Props.C10", "GPVerif.Model.MVN"]
+BUILD_TARGETS = ["GPVerif.Props.C10", "GPVerif.Model.MVN", "GPVerif.Gen.MVN"]
 RULE = ("getitem: exhaustive index expressions (ints incl. negative/out-of-range, slices start/stop in [-n-1,n+1] "
         "or None, step in {None,1,2,3,-1}, ellipsis, index lists/tensors/arrays, batch x event tuples, paired "
         "advanced indices) on event size <= 4, batch in {(),(2,),(2,3)} x covariance representations; log_prob: "
@@ -32,7 +34,8 @@ RULE = ("getitem: exhaustive index expressions (ints incl. negative/out-of-range
         "log_prob of the marginal).  distinct = distinct (kind, representation, shapes, index expression / op, config); "
         "non-trivial = the real code accepted the input and returned a distribution/tensor that was compared")
 EXHAUSTIVE = True
-TRUSTED = ["mpmath log of the exact rational determinant (40 digits)",
+TRUSTED = ["translator harness/translate/g7_mvn.py (Python ast -> Gen/MVN.lean)",
+           "mpmath log of the exact rational determinant (40 digits)",
            "numpy/torch basic+advanced indexing of the dense mean as the meaning of `mean[idx]`",
            "modelled not verified: torch tensor primitives, linear_operator (Cholesky, CG, root_decomposition)"]
 ASSUMPTIONS = ["float64 only; inputs are dyadic rationals with <= 8 fractional bits, condition number <= 1e4",
@@ -47,6 +50,16 @@ ASSUMPTIONS = ["float64 only; inputs are dyadic rationals with <= 8 fractional b
                "linear_operator's CG)"]
 
 RTOL, ATOL = 1e-8, 1e-9
+GEN = os.path.join(C.LEAN_DIR, "GPVerif", "Gen", "MVN.lean")
+
+
+def generate(ctx):
+    """Translator G7: regenerate Gen/MVN.lean from $VERIF_REPO's multivariate_normal.py (TranslateError = broken tie)."""
+    sys.path.insert(0, os.path.join(C.VERIF, "harness"))
+    from translate import g7_mvn
+    notes, changed = g7_mvn.generate(C.REPO, GEN)
+    ctx.notes["gen_changed"] = changed
+    ctx.notes["gen_notes"] = notes
 
 
 # =============================================================== exact mirror of the driver (Python fractions)
@@ -251,6 +264,46 @@ def py_reply(line):
         ok = len(pc) == len(ds) and all(f * c == d and all(i % c == (0 if c == 1 else i) for i in range(d))
                                         for d, c, f in zip(ds, pc, fs))
         return "factors" + "".join(f" {f}" for f in fs) + f" | ok={1 if ok else 0}"
+    if cmd == "asmlp":
+        q, ld, k, l = (Fraction(t) for t in ts)
+        return C.rat_str(-Fraction(1, 2) * (q + ld + k * l))
+    if cmd == "asmkl":
+        ldq, ldp, tpq, k = (Fraction(t) for t in ts)
+        return C.rat_str(Fraction(1, 2) * (tpq + ldq - ldp - k))
+    if cmd == "gcov":
+        S, p = _take(ts, 0)
+        n = len(S)
+        l, d, e = int(ts[p + 1]), int(ts[p + 2]), ts[p + 3] == "1"
+        last = parse_idx_tokens(ts[p + 5:])[0]
+        if l + 1 <= d and not e:
+            return "br=batchOnly;nosel"
+        if l > d:
+            return "br=tooMany;nosel"
+        if last is Ellipsis:
+            br, ps = "ellipsis", list(range(n))
+        else:
+            br = "int" if isinstance(last, int) else ("slice" if isinstance(last, slice) else "advanced")
+            sel = py_index([n], [last])
+            if sel is None:
+                return f"br={br};nosel"
+            ps = [sel[0][1]] if sel[0][0] == "D" else list(sel[0][1])
+        pos = " ".join(map(str, ps))
+        return f"br={br};rows={pos};cols={pos};" + _show([[S[a][b] for b in ps] for a in ps])
+    if cmd == "varclamp":
+        fl, n = Fraction(ts[0]), int(ts[1])
+        return " ".join(C.rat_str(max(Fraction(t), fl)) for t in ts[2:2 + n])
+    if cmd == "perm":
+        d = int(ts[0])
+        pin, pout = list(range(1, d + 1)) + [0], [d] + list(range(d))
+        return ("in: " + " ".join(map(str, pin)) + " | out: " + " ".join(map(str, pout)) +
+                f" | roundtrip={1 if all(pin[pout[j]] == j for j in range(d + 1)) else 0}")
+    if cmd == "unsq":
+        nb, dim = int(ts[0]), int(ts[1])
+        if dim > nb or dim < -nb - 1:
+            return "reject"
+        return str(dim if dim >= 0 else nb + dim + 1)
+    if cmd == "divf":
+        return C.rat_str(1 / Fraction(ts[0]))
     return "bad-request"
 
 
@@ -531,6 +584,15 @@ def run_getitem(case):
         real_err = e
     toks = idx_tokens(idx_p)
     lines = [f"index {len(shape)} " + " ".join(map(str, shape)) + " | " + toks] if toks is not None else []
+    gline = None
+    if toks is not None and mean_ref is not None and mean_ref.ndim > 0 and mean_ref.size > 0 and "mu_build" not in case:
+        if len(shape) == 1 and len(idx_p) == 1:
+            gline = (f"gcov {C.mat_tokens(S)} | 1 1 0 | {toks}", cov_ref)
+        elif len(shape) == 2 and len(idx_p) == 2 and idx_p[0] == slice(None) and isinstance(idx_p[1], int) \
+                and not isinstance(idx_p[1], bool):
+            gline = (f"gcov {C.mat_tokens(S[0])} | 2 2 0 | I {idx_p[1]}", cov_ref[:1, :1])
+    if gline is not None:
+        lines.append(gline[0])
     _full = _expand_ellipsis(list(idx_p), len(shape))
     paired = (_full is not None and isinstance(_full[-1], list) and any(isinstance(i, list) for i in _full[:-1])) or \
         (_full is None and sum(1 for i in idx_p if isinstance(i, list)) >= 2)
@@ -562,6 +624,16 @@ def run_getitem(case):
             return res
         res["status"] = "compared"
         where = f"{rep} batch={tuple(shape[:-1])} n={shape[-1]} d{idx_show(idx)}"
+        if gline is not None:   # the regenerated dispatch + covariance selection must denote the marginal
+            parts = replies[-1].split(";")
+            ok = len(parts) == 4
+            if ok:
+                rows_, _ = C.parse_mat(parts[3].split(), 0)
+                G = np.array(C.fmat_to_float(rows_)).reshape(gline[1].shape) if len(rows_) * (len(rows_[0]) if rows_ else 0) == gline[1].size else None
+                ok = G is not None and bool(np.all(G == gline[1]))
+            if not ok:
+                res["broke"].append(("generated-getitem", f"{where}: generated dispatch/selection gives `{replies[-1][:160]}`, "
+                                     f"marginal covariance is {gline[1].tolist()}"))
         multi = sum(1 for i in idx_p if i is Ellipsis) > 1
         key_sfx = "multiple-ellipsis" if multi else ("advanced-batch-event-pairing" if paired else
                                                     ("int-event" if case1 else "event"))
@@ -778,6 +850,7 @@ def run_logprob(case):
                 return res
             ld = 0.0 if cfg == "cg-quad" else _mp_log(det)
             exp[o] = -0.5 * (float(quad) + ld + n * math.log(2 * math.pi))
+            res.setdefault("asm", []).append((f"asmlp {C.rat_str(quad)} {C.rat_str(ld)} {n} {C.rat_str(math.log(2 * math.pi))}", exp[o]))
         if lp.shape != exp.shape:
             res["fails"].append((f"logprob:shape:{cls}", f"{where}: log_prob has shape {lp.shape}, expected {exp.shape}"))
             return res
@@ -883,6 +956,7 @@ def run_kl(case):
                 return res
             ld = _mp_log(ratio)
             exp[o] = 0.5 * (float(Fraction(kv["tr"])) + float(Fraction(kv["quad"])) - n + ld)
+            res.setdefault("asm", []).append((f"asmkl {C.rat_str(ld)} 0 {C.rat_str(Fraction(kv['tr']) + Fraction(kv['quad']))} {n}", exp[o]))
             if "code" in kv:
                 expc[o] = 0.5 * (float(Fraction(kv["code"])) - n + ld)
                 res["rres"] = max(res["rres"], float(Fraction(kv["rres"])))
@@ -1168,13 +1242,32 @@ def run_op(case):
         for b in itertools.product(*[range(t) for t in B]):
             lines.append(f"jitter {C.rat_str(arg)} {C.mat_tokens(S_f[b])}")
             slots.append(b)
+    elif op == "unsqueeze":
+        lines.append(f"unsq {len(B)} {arg}")
+    if op == "moments" and lines:
+        lines.append(f"varclamp {C.rat_str(_min_var())} {n} " + " ".join(C.rat_str(x) for x in np.diagonal(S_f[slots[0]])))
 
     def judge(replies):
         res = {"status": "compared", "fails": [], "broke": []}
+        if op == "unsqueeze" and replies and replies[-1] == "reject":
+            res["status"] = "rejected" if isinstance(err, IndexError) else "compared"
+            if not isinstance(err, IndexError):
+                res["fails"].append((f"unsqueeze:out-of-range-accepted{cls}", f"{where}: dim outside [-nb-1, nb] is not an IndexError"))
+            return res
         if err is not None:
             res["status"] = f"raised:{type(err).__name__}"
             res["fails"].append((f"{op}:raises{cls}", f"{where}: raises {type(err).__name__}: {str(err)[:160]}"))
             return res
+        if op == "unsqueeze" and replies:
+            gd = int(replies[-1])
+            if out["batch"] != B[:gd] + (1,) + B[gd:]:
+                res["fails"].append((f"unsqueeze:batch-shape{cls}", f"{where}: batch_shape {out['batch']}, the generated dimension "
+                                     f"arithmetic inserts the new axis at {gd}"))
+        if op == "moments" and lines:
+            want = np.array([float(Fraction(t)) for t in replies[-1].split()])
+            if not _relclose(out["var"][slots[0]], want, np.abs(want)):
+                res["fails"].append((f"variance{cls}", f"{where}: variance{list(slots[0])} = {out['var'][slots[0]].tolist()}, generated "
+                                     f"clamp of the diagonal gives {want.tolist()}"))
         if op == "moments":
             dg = np.diagonal(S_f, axis1=-2, axis2=-1)
             if not _allclose(out["var"], dg):
@@ -1265,7 +1358,7 @@ def op_cases(ctx, rng):
                 out.append(dict(P(n), kind="op", op="sum", arg=P(n, (3, 1), rng.choice(REPS))))
             for tb in [b, (3,) + b, (2, 1) + b] + ([(4,)] if b == () else []):
                 out.append(dict(P(), kind="op", op="expand", arg=list(tb)))
-            for dim in range(-len(b) - 1, len(b) + 1):
+            for dim in range(-len(b) - 2, len(b) + 2):
                 out.append(dict(P(), kind="op", op="unsqueeze", arg=dim))
             for e in (0.25, 1e-4):
                 out.append(dict(P(), kind="op", op="jitter", arg=e))
@@ -1352,6 +1445,18 @@ def model_lines(ctx, rng):
     for ds, cs in [([3, 2], [2]), ([1], [3]), ([2, 3], [2, 3]), ([2, 3], [1, 3]), ([4, 2, 3], [2, 1]), ([2, 1], [2, 3]), ([], []),
                    ([5], []), ([2], [2, 2])]:
         lines.append("bcast " + " ".join(map(str, [len(ds)] + ds)) + " | " + " ".join(map(str, [len(cs)] + cs)))
+    for d in range(0, 7):
+        lines.append(f"perm {d}")
+    for nb in range(0, 4):
+        for dim in range(-nb - 3, nb + 3):
+            lines.append(f"unsq {nb} {dim}")
+    for c in ("2", "-4", "1/3", "-7/8", "1/1048576"):
+        lines.append(f"divf {c}")
+    for _ in range(40):
+        n = rng.randint(1, 5)
+        fl = rng.choice(["1/10000000000", "1/1000", "1/2", "0"])
+        vs = [rng.choice(["0", "1/70368744177664", "1/1099511627776", "1/4096", "1/2", "3", "1/1000", "1/10000000000"]) for _ in range(n)]
+        lines.append(f"varclamp {fl} {n} " + " ".join(vs))
     return lines
 
 
@@ -1449,6 +1554,9 @@ def _drive(ctx, lines):
     ctx.count("driver_vs_python_exact_mismatches", len(mism))
     for l, a, b in mism[:3]:
         ctx.broke("correspondence", "model-vs-python:" + l.split()[0], f"request `{l[:200]}`\nlean:   {a[:300]}\npython: {b[:300]}")
+    if mism:
+        # the tie is broken (reported above); the implementation is judged by the specification = the exact Python mirror
+        lean = [b if a != b else a for a, b in zip(lean, py)]
     return lean, True
 
 
@@ -1456,7 +1564,7 @@ def _execute(ctx, cases, use_driver=True):
     import torch
     torch.set_num_threads(2)
     torch.set_default_dtype(torch.float64)
-    statuses, rej_msgs, rres_max, prim = {}, {}, 0.0, {}
+    statuses, rej_msgs, rres_max, prim, asm = {}, {}, 0.0, {}, []
     pend, lines = [], []
     for case in cases:
         ls, judge = RUNNERS[case["kind"]](case)
@@ -1477,6 +1585,7 @@ def _execute(ctx, cases, use_driver=True):
             key = "".join(ch if not ch.isdigit() else "#" for ch in key)[:110]
             rej_msgs[key] = rej_msgs.get(key, 0) + 1
         rres_max = max(rres_max, res.get("rres", 0.0))
+        asm.extend(res.get("asm", []))
         if "assumption" in res:
             if "prim" in res:
                 prim[res["prim"]] = prim.get(res["prim"], 0) + 1
@@ -1491,6 +1600,29 @@ def _execute(ctx, cases, use_driver=True):
             ctx.fail(key, what, _payload(case))
         for name, detail in res["broke"]:
             ctx.broke("correspondence", name, detail)
+    # second pass: the regenerated assembly formulas (log_prob: -0.5*sum([...]); kl: 0.5*sum([...])) evaluated by the driver
+    # on the exact pieces must reproduce the value every comparison above used
+    if use_driver and asm:
+        seen, alines, avals = set(), [], []
+        for ln, val in asm:
+            if ln not in seen and len(alines) < (2000 if ctx.tier == "quick" else 20000):
+                seen.add(ln)
+                alines.append(ln)
+                avals.append(val)
+        areps, ok = _drive(ctx, alines)
+        bad_ = 0
+        for ln, val, rp in zip(alines, avals, areps):
+            try:
+                got = float(Fraction(rp))
+            except Exception:
+                got = float("nan")
+            if not abs(got - val) <= 1e-11 * max(1.0, abs(val)):
+                bad_ += 1
+                if bad_ <= 3:
+                    ctx.broke("correspondence", "generated-assembly:" + ln.split()[0],
+                              f"`{ln[:200]}` -> {rp[:80]}; the harness formula (the specification) gives {val!r}")
+        ctx.count("generated_assembly_lines", len(alines))
+        ctx.count("generated_assembly_mismatches", bad_)
     ctx.notes["case_status_counts"] = dict(sorted(statuses.items()))
     ctx.notes["getitem_rejection_reasons"] = dict(sorted(rej_msgs.items(), key=lambda kv: -kv[1])[:25])
     ctx.notes["max_root_decomposition_residual"] = rres_max
@@ -1507,7 +1639,9 @@ def correspondence(ctx):
 def search(ctx, broken):
     """A proof or the driver tie broke: the implementation is judged against the independent exact Python
     mirror (`py_reply`), which does not depend on the Lean side."""
-    if ctx.failures:
+    import fnmatch
+    known = C.known_findings(ID)
+    if any(not any(fnmatch.fnmatch(f["key"], k["match"]) for k in known) for f in ctx.failures):
         return
     _execute(ctx, all_cases(ctx), use_driver=False)
 
@@ -1923,6 +2057,11 @@ def run_getitem_var(case):
         for o in itertools.product(*[range(t) for t in mean_ref.shape[:-1]]):
             lines.append(f"logprob {C.mat_tokens(cov_ref[o])} {C.vec_tokens(mean_ref[o])} {C.vec_tokens(v[o])}")
             slots.append(o)
+    vline = None
+    if err is None and "pvar" in out and out["pvar"].shape == mu.shape:
+        b0 = tuple(0 for _ in mu.shape[:-1])
+        vline = b0
+        lines.append(f"varclamp {C.rat_str(out['floor'])} {mu.shape[-1]} " + " ".join(C.rat_str(x) for x in np.diagonal(S[b0])))
 
     def judge(replies):
         res = {"status": "compared", "fails": [], "broke": []}
@@ -1944,6 +2083,10 @@ def run_getitem_var(case):
         pv = np.maximum(np.diagonal(S, axis1=-2, axis2=-1), fl)
         if not _relclose(out["pvar"], pv, pv):
             fail("parent-variance", f"variance != max(diag, min_variance={fl})")
+        if vline is not None:
+            want = np.array([float(Fraction(t)) for t in replies[-1].split()])
+            if not _relclose(out["pvar"][vline], want, np.abs(want)):
+                fail("parent-variance", f"variance{list(vline)} = {out['pvar'][vline].tolist()}, generated clamp gives {want.tolist()}")
         if not _relclose(out["mean"], mean_ref, np.maximum(np.abs(mean_ref), 1e-30)):
             fail("mean", f"mean (shape {out['mean'].shape}) != mean{idx_show(idx)} (shape {mean_ref.shape})")
         if out["cov"].shape != cov_ref.shape:
@@ -1958,7 +2101,7 @@ def run_getitem_var(case):
         mv = np.maximum(np.diagonal(cov_ref, axis1=-2, axis2=-1), fl)
         if not _relclose(out["var"], mv, mv):
             fail("variance", f"variance of the marginal != max(diag of the marginal covariance, min_variance={fl})")
-        if lines:
+        if slots:
             k = mean_ref.shape[-1]
             exp = np.zeros(mean_ref.shape[:-1])
             for o, rp in zip(slots, replies):
@@ -2006,7 +2149,7 @@ def getitem_var_cases(ctx, rng):
                         idxs = [(e,) for e in ev if not isinstance(e, int)] + [(Ellipsis, slice(1, 3))]
                     else:
                         pres = list(itertools.product(*[[0, -1, slice(None), slice(1, None)][:(4 if s > 2 else 3)] for s in batch]))
-                        for pre in (pres if not quick else [pres[0]] + rng.sample(pres, 3) + [tuple([slice(None)] * nb)]):
+                        for pre in (pres if not quick else [rng.choice(pres), tuple([slice(None)] * nb)]):
                             for e in ev:
                                 idxs.append(tuple(pre) + (e,))
                         idxs += [(Ellipsis, e) for e in ev] + [(0,), (-1,), (slice(None),)]
